@@ -19,8 +19,7 @@ def scratch(prefix="verif-"):
 
 def _java(args, env=None, timeout=1800, cwd=SPEC, heap=None):
     cmd = ["java", "-XX:+UseParallelGC"]
-    if heap:
-        cmd.append(f"-Xmx{heap}")
+    cmd.append(f"-Xmx{heap or '4g'}")
     cmd += ["-cp", JAR, "tlc2.TLC"] + args
     e = dict(os.environ)
     if env:
